@@ -30,6 +30,7 @@ Init0 == [case |-> 0, req |-> None, hasReq |-> FALSE,
           bs |-> [term |-> "none"], hasB |-> FALSE,
           mainH |-> NoHead, mainIsGet |-> FALSE, mainB |-> [total |-> 0], hasMain |-> FALSE,
           ib |-> [k |-> "none"], ibOK |-> FALSE,
+          convLen |-> 0,
           viol |-> {}, drift |-> {}, cases |-> 0, heads |-> 0, pollsN |-> 0]
 
 Bad(s, ln, ids, what) == {<<s.case, ln, id, what>> : id \in ids}
@@ -165,8 +166,23 @@ OnBody(s, e, ln) ==
                !.viol = s.viol \cup Bad(s, ln, bf, "body") \cup Bad(s, ln, hang, "hang")
                           \cup Bad(s, ln, pairFail, "HEAD/GET pair")]
 
+\* Body::from / Body::empty conversions (C12): a body with no head; the announced length is the
+\* first hint, which must be exact and equal to the converted length
+ConvHead == [status |-> 200, cl |-> None]
+OnConv(s, e, ln) ==
+  [s EXCEPT !.bs = InitBody(ConvHead, TRUE), !.hasB = TRUE, !.hasH = FALSE, !.isGet = TRUE, !.run = "conv",
+            !.ib = ImplBodyInit(IF e.kind = "empty" THEN [k |-> "empty"] ELSE [k |-> "once", n |-> e.len]),
+            !.ibOK = Strict, !.convLen = e.len]
+OnConvEnd(s, e, ln) ==
+  IF ~s.hasB THEN s
+  ELSE LET bad == IF s.bs.term = "end" /\ (e.total # s.convLen \/ s.bs.ann # [k |-> "some", v |-> N(s.convLen)])
+                  THEN Enforce \cap {"C12"} ELSE {}
+       IN [s EXCEPT !.hasB = FALSE, !.viol = s.viol \cup Bad(s, ln, bad, "Body::from length / hint")]
+
 Step(s, e, ln) ==
   CASE e.ev = "reset" -> OnReset(s, e)
+    [] e.ev = "conv" -> OnConv(s, e, ln)
+    [] e.ev = "convend" -> OnConvEnd(s, e, ln)
     [] e.ev = "req" -> OnReq(s, e)
     [] e.ev = "head" -> OnHead(s, e, ln)
     [] e.ev = "poll" -> OnPoll(s, e, ln)
